@@ -159,6 +159,27 @@ func checkC06(c C06Case, o *Obs) error {
 		}
 	}
 
+	// The byte stream is what the io.Reader delivers from now on: a seekable reader handed over
+	// at an offset > 0 (the caller consumed a prefix of something else) decodes as the rest.
+	{
+		prefix := []byte("@earlier content that is not part of this stream\n>x\n(y;\n")
+		sr := bytes.NewReader(append(bytes.Clone(prefix), text...))
+		sr.Seek(int64(len(prefix)), io.SeekStart)
+		if err := compare("a bytes.Reader handed over at offset > 0 (a prefix was consumed by the caller)", func(cb func(Item) bool) { codec.Reader(sr, cb) }); err != nil {
+			return err
+		}
+		if c.Files {
+			path := writeTemp(append(bytes.Clone(prefix), text...), ".bin")
+			if f, err := os.Open(path); err == nil {
+				f.Seek(int64(len(prefix)), io.SeekStart)
+				err := compare("an *os.File handed over at offset > 0 (a prefix was consumed by the caller)", func(cb func(Item) bool) { codec.Reader(f, cb) })
+				f.Close()
+				if err != nil {
+					return err
+				}
+			}
+		}
+	}
 	// Readers in use at the same time (paired files read in lockstep): a reader over these
 	// bytes, one over other data of the same format (a fixed small input repeated until it is
 	// longer than this one) that starts one item later, and a third over these bytes again,
@@ -240,6 +261,22 @@ func checkC06(c C06Case, o *Obs) error {
 			tmpFiles = append(tmpFiles, plainGzNamed, linkPlain)
 			if err := compare("File(symbolic link without .gz suffix to plain data in a file named *.gz)", func(cb func(Item) bool) { codec.File(linkPlain, cb) }); err != nil {
 				return err
+			}
+		}
+		// a directory is not a readable file either: an error, no records (also when named *.gz)
+		for _, suffix := range []string{"", ".gz"} {
+			tmpSeq++
+			dir := filepath.Join(scratchDir(), fmt.Sprintf("dir%d.%s%s", tmpSeq, c.Format, suffix))
+			if os.Mkdir(dir, 0o755) != nil {
+				continue
+			}
+			tmpFiles = append(tmpFiles, dir)
+			got, over, p := collect(func(cb func(Item) bool) { codec.File(dir, cb) }, 8)
+			if p != nil {
+				return fmt.Errorf("%s.File(a directory) panicked: %v", c.Format, p)
+			}
+			if over || len(got) == 0 || got[0].Err == nil {
+				return fmt.Errorf("%s.File(a directory named %q) yields %s, want an error", c.Format, filepath.Base(dir), describeItems(got))
 			}
 		}
 		missing := filepath.Join(scratchDir(), "does-not-exist", "x."+c.Format)
